@@ -17,7 +17,7 @@ grammar: `*`, plain decimal 0..255 without leading zero, `x-y` with plain decima
 `shapeOk` (literals, then at most one hyphenated octet, then only asterisks), `globParse`,
 `GlobGrammar`.  Model: Model/Glob.lean, Model/Nmap.lean.
 -/
-import NetaddrVerif.Lemmas.C17LConv
+import NetaddrVerif.Lemmas.C17LBlock
 import NetaddrVerif.Lemmas.C17LNmap
 namespace NV.C17
 open NV NV.Glob
@@ -85,6 +85,152 @@ example : GlobMatches "192.0.2-3.*".toList 3221226000 :=
   ⟨.lit 192, .lit 0, .hyp 2 3, .star, by decide +kernel, by decide,
     by simp [Oct.matches, Oct.lo, Oct.hi], by simp [Oct.matches, Oct.lo, Oct.hi],
     by simp [Oct.matches, Oct.lo, Oct.hi], by simp [Oct.matches, Oct.lo, Oct.hi]⟩
+
+/-! ## iprange_to_globs, cidr_to_glob, glob_to_cidrs, IPGlob -/
+
+/-- the single-glob attempt of `iprange_to_globs` (inner function + validity re-check): whenever
+    it succeeds, the glob is valid and denotes exactly `[lo, hi]`, and it is the whole result -/
+theorem single_glob_exact (lo hi : Nat) (hlo : lo < 2 ^ 32) (hhi : hi < 2 ^ 32) (g : List Char)
+    (h : singleGlob lo hi = .ok g) :
+    iprangeToGlobs ⟨4, lo⟩ ⟨4, hi⟩ = .ok [g] ∧ validGlob g = true ∧ globToIptuple g = .ok (lo, hi) := by
+  refine ⟨by simp [iprangeToGlobs, h], ?_⟩
+  rw [singleGlob_eq] at h
+  split at h
+  · next hc =>
+    simp only [Except.ok.injEq] at h; subst h
+    exact joined_denotes lo hi hlo hhi hc
+  · exact absurd h (by simp)
+
+/-- the attempt can only fail with AddrConversionError (which selects the per-CIDR fallback) -/
+theorem single_glob_error (lo hi : Nat) (e : Err) (h : singleGlob lo hi = .error e) : e = .addrConversion := by
+  rw [singleGlob_eq] at h
+  split at h
+  · exact absurd h (by simp)
+  · simp only [Except.error.injEq] at h; exact h.symm
+
+/-- "a single glob when the range is glob-shaped": every range that some valid glob denotes is
+    converted to exactly one valid glob denoting that same range -/
+theorem single_when_shaped (s : List Char) (lo hi : Nat) (hv : validGlob s = true)
+    (hc : globToIptuple s = .ok (lo, hi)) :
+    ∃ g, iprangeToGlobs ⟨4, lo⟩ ⟨4, hi⟩ = .ok [g] ∧ validGlob g = true ∧ globToIptuple g = .ok (lo, hi) := by
+  obtain ⟨os, hp⟩ := (validGlob_iff_parse s).1 hv
+  obtain ⟨o0, o1, o2, o3, e, w0, w1, w2, w3, hs, hlo, hhi⟩ := conv_of_parse s os hp
+  subst e
+  simp only [globToIptuple, hv, Bool.not_true, Bool.false_eq_true, if_false, hlo, hhi, Except.ok.injEq,
+    Prod.mk.injEq] at hc
+  obtain ⟨rfl, rfl⟩ := hc
+  have hb := shape_lo_le_hi o0 o1 o2 o3 w0 w1 w2 w3
+  have hsh := shaped_of_glob o0 o1 o2 o3 w0 w1 w2 w3 hs
+  have hsg : singleGlob (quad o0.lo o1.lo o2.lo o3.lo) (quad o0.hi o1.hi o2.hi o3.hi) =
+      .ok (joined (quad o0.lo o1.lo o2.lo o3.lo) (quad o0.hi o1.hi o2.hi o3.hi)) := by
+    rw [singleGlob_eq]; simp [hsh]
+  exact ⟨_, single_glob_exact _ _ (by omega) hb.2 _ hsg⟩
+
+example : iprangeToGlobs ⟨4, 3221225984⟩ ⟨4, 3221226495⟩ = .ok ["192.0.2-3.*".toList] := by decide +kernel
+
+/-- `cidr_to_glob` is the exact one-glob form of any IPv4 CIDR (host bits allowed in the argument) -/
+theorem cidr_to_glob_exact (n : Net) (hver : n.ver = 4) (hv : n.val < 2 ^ 32) (hp : n.plen ≤ 32) :
+    ∃ g, cidrToGlob n = .ok g ∧ validGlob g = true ∧ globToIptuple g = .ok (n.first, n.last) := by
+  obtain ⟨ver, v, p⟩ := n
+  simp only at hver hv hp
+  subst hver
+  obtain ⟨g, h1, _, h3, h4⟩ := block_glob v p hv hp
+  have hw : width 4 = 32 := by decide
+  refine ⟨g, ?_, h3, by simpa [Net.first, Net.last, hw] using h4⟩
+  simp [cidrToGlob, Net.first, Net.last, hw, iprangeToGlobs, h1]
+
+example : cidrToGlob ⟨4, 167772165, 9⟩ = .ok "10.0-127.*.*".toList := by decide +kernel
+
+/-- IPv6 arguments are rejected with AddrConversionError by both functions -/
+theorem v6_rejected (s e : Addr) (n : Net) (hs : s.ver ≠ 4) (he : e.ver ≠ 4) (hn : n.ver ≠ 4) :
+    iprangeToGlobs s e = .error .addrConversion ∧ cidrToGlob n = .error .addrConversion := by
+  simp [iprangeToGlobs, cidrToGlob, hs, he, hn]
+
+/-- consecutive closed intervals, ascending, that cover `[lo, hi]` exactly -/
+def Tiles : List (Nat × Nat) → Nat → Nat → Prop
+  | [], lo, hi => lo = hi + 1
+  | (a, b) :: r, lo, hi => a = lo ∧ a ≤ b ∧ b ≤ hi ∧ Tiles r (b + 1) hi
+
+/-- globs `gs` are valid and denote the intervals `ivs`, one by one -/
+def GlobsDenote : List (List Char) → List (Nat × Nat) → Prop
+  | [], [] => True
+  | g :: gs, iv :: ivs => (validGlob g = true ∧ globToIptuple g = .ok iv) ∧ GlobsDenote gs ivs
+  | _, _ => False
+
+/-- HYPOTHESIS of the fallback path = what property C05 states about `iprange_to_cidrs` on two
+    IPv4 addresses: the returned blocks are IPv4 blocks that tile `[lo, hi]` in ascending order -/
+def CidrsTile (lo hi : Nat) : Prop :=
+  (∀ b ∈ iprangeToCidrs 32 ⟨lo, 32⟩ ⟨hi, 32⟩, b.val < 2 ^ 32 ∧ b.plen ≤ 32) ∧
+  Tiles ((iprangeToCidrs 32 ⟨lo, 32⟩ ⟨hi, 32⟩).map (fun b => (b.first 32, b.last 32))) lo hi
+
+theorem blocks_globs : ∀ (bs : List Pfx), (∀ b ∈ bs, b.val < 2 ^ 32 ∧ b.plen ≤ 32) →
+    ∃ gs, bs.mapM (fun c => iprangeToGlob (c.first 32) (c.last 32)) = .ok gs ∧
+      GlobsDenote gs (bs.map (fun b => (b.first 32, b.last 32))) := by
+  intro bs
+  induction bs with
+  | nil => intro _; exact ⟨[], rfl, trivial⟩
+  | cons b r ih =>
+    intro h
+    obtain ⟨gs, h1, h2⟩ := ih (fun x hx => h x (List.mem_cons_of_mem _ hx))
+    obtain ⟨hv, hp⟩ := h b (List.mem_cons_self ..)
+    obtain ⟨g, _, g2, g3, g4⟩ := block_glob b.val b.plen hv hp
+    refine ⟨g :: gs, ?_, ⟨g3, g4⟩, h2⟩
+    rw [mapM_exc_cons]
+    simp only [Pfx.first, Pfx.last, g2]
+    simp only [Pfx.first, Pfx.last] at h1
+    rw [h1]
+
+/-- FULL STATEMENT (range_to_globs_tiles): for all IPv4 `lo ≤ hi`, `iprange_to_globs(lo, hi)`
+    returns valid globs whose denotations tile `[lo, hi]` exactly, in ascending order.
+
+    Proved here: the single-glob path unconditionally (`single_glob_exact`, `single_when_shaped`);
+    the per-CIDR fallback path relative to the hypothesis `CidrsTile lo hi`, i.e. relative to
+    property C05's theorem about `iprange_to_cidrs` (exact ascending tiling by IPv4 blocks), which
+    is proved for the same `Model/Cidr.lean` definitions in the C05 check, not in this file.  What
+    is proved unconditionally about the fallback: each returned string is `_iprange_to_glob` of one
+    block and is a valid glob denoting exactly that block (`blocks_globs`, `cidr_block_glob`). -/
+theorem range_to_globs_tiles_partial (lo hi : Nat) (hle : lo ≤ hi) (hhi : hi < 2 ^ 32)
+    (hC05 : (∀ g, singleGlob lo hi ≠ .ok g) → CidrsTile lo hi) :
+    ∃ gs ivs, iprangeToGlobs ⟨4, lo⟩ ⟨4, hi⟩ = .ok gs ∧ GlobsDenote gs ivs ∧ Tiles ivs lo hi := by
+  cases hsg : singleGlob lo hi with
+  | ok g =>
+    obtain ⟨h1, h2, h3⟩ := single_glob_exact lo hi (by omega) hhi g hsg
+    exact ⟨[g], [(lo, hi)], h1, ⟨⟨h2, h3⟩, trivial⟩, rfl, hle, Nat.le_refl _, rfl⟩
+  | error e =>
+    have he := single_glob_error lo hi e hsg
+    subst he
+    obtain ⟨hb, ht⟩ := hC05 (fun g hg => by rw [hsg] at hg; exact absurd hg (by simp))
+    obtain ⟨gs, h1, h2⟩ := blocks_globs _ hb
+    exact ⟨gs, _, by simp [iprangeToGlobs, hsg, h1], h2, ht⟩
+
+/-- every CIDR block converts, through the inner function alone, to a valid glob denoting it
+    (this is what the fallback path emits per block) -/
+theorem cidr_block_glob (v p : Nat) (hv : v < 2 ^ 32) (hp : p ≤ 32) :
+    ∃ g, iprangeToGlob (netFirst 32 v p) (netLast 32 v p) = .ok g ∧ validGlob g = true ∧
+      globToIptuple g = .ok (netFirst 32 v p, netLast 32 v p) := by
+  obtain ⟨g, _, h2, h3, h4⟩ := block_glob v p hv hp
+  exact ⟨g, h2, h3, h4⟩
+
+example : iprangeToGlobs ⟨4, 255⟩ ⟨4, 257⟩ = .ok ["0.0.0.255".toList, "0.0.1.0-1".toList] := by
+  decide +kernel
+
+/-- `glob_to_cidrs` of a valid glob is `iprange_to_cidrs` of its exact bounds -/
+theorem glob_to_cidrs_eq (s : List Char) (lo hi : Nat) (hc : globToIptuple s = .ok (lo, hi)) :
+    globToCidrs s = .ok (iprangeToCidrs 32 ⟨lo, 32⟩ ⟨hi, 32⟩) := by
+  simp [globToCidrs, hc]
+
+/-- `IPGlob(s)` of a valid glob: an object over exactly the denoted range whose printed glob is
+    valid and denotes that same range -/
+theorem ipglob_exact (s : List Char) (hv : validGlob s = true) :
+    ∃ lo hi g, globToIptuple s = .ok (lo, hi) ∧ ipGlob s = .ok ⟨lo, hi, g⟩ ∧ validGlob g = true ∧
+      globToIptuple g = .ok (lo, hi) := by
+  obtain ⟨lo, hi, h1, _, hle, _, _⟩ := glob_denotes s hv
+  obtain ⟨g, g1, g2, g3⟩ := single_when_shaped s lo hi hv h1
+  refine ⟨lo, hi, g, h1, ?_, g2, g3⟩
+  have : ¬ lo > hi := by omega
+  simp [ipGlob, h1, this, g1, setGlob, g3]
+
+example : ipGlob "10.0.0-255.*".toList = .ok ⟨167772160, 167837695, "10.0.*.*".toList⟩ := by decide +kernel
 
 /-! ## nmap target specifications -/
 open NV.Nmap
